@@ -18,6 +18,7 @@ import (
 	"verif/checks/c15"
 	"verif/checks/c16"
 	"verif/checks/c17"
+	"verif/checks/c18"
 	"verif/checks/c19"
 	"verif/checks/ccrypto"
 	"verif/engine"
@@ -39,6 +40,7 @@ var checks = map[string]check{
 	"C15": {"model_checking", c15.Run},
 	"C16": {"model_checking", c16.Run},
 	"C17": {"model_checking", c17.Run},
+	"C18": {"model_checking", c18.Run},
 	"C19": {"model_checking", c19.Run},
 	"C03": {"model_checking", c03.Run},
 	"C05": {"model_checking", ccrypto.RunC05},
